@@ -65,6 +65,14 @@ RULE = ("histories over (mti, sti, enabled): all period pairs in {0..12}^2 (comp
         "clear KEYI, keyboard interrupt enable off in 1 of 8, and in 2 of 3 of them the program acknowledges requests "
         "itself (1..3 MV (ISR),v with v free of timer bits at instruction boundaries of the main program, in 1 of 3 "
         "irq runs also at the handler's entry). "
+        "Bulk entry points (round 4): per pair (quick 1, thorough 4) and for larger periods a 'run' flavour -- irq-flavour "
+        "machine set-up, firmware-style idle loop (MV (ISR),v + HALT, WAITs, NOP runs), handler that may acknowledge at "
+        "its entry, IMR generated, 60..219 instructions, host actions (acknowledgements, save/load round trips, resets, "
+        "in 1 of 4 key activity) only between calls -- executed single-stepped (judged as every other run) and once "
+        "per chunking (two per case: generated call sizes 1..50 / one tail call, and uniform n = 2, 3, 7 or 50) with "
+        "ONE PCE500Emulator.run(n) / CoreRuntime::step(n) call per chunk; at the end of every call cycle counter, next "
+        "targets, ISR bits 0/1 and (PCE500Emulator) the cycles at which the scheduler reported firings are compared with "
+        "the single-stepped execution of the same implementation. "
         "Non-trivial = some active timer crosses >= 2 boundaries in the history, or a tick lands exactly on a "
         "boundary, or one gap skips > 1 period (machine layer: >= 2 target movements); distinct = (mti, sti, "
         "enabled, hash of the op list / program+step schedule).")
@@ -132,6 +140,16 @@ ASSUMPTIONS = [
     "the mechanism, not part of the statement, and is not asserted); 'a pending status bit is not cleared by a "
     "step' is asserted outside handlers only (CoreRuntime's RETI clears the delivered bit); a run whose PC leaves "
     "main program and handler is not judged further (label machine:derailed, expected 0)",
+    "bulk entry points: PCE500Emulator.run(n) is documented by its body (`while count < n: step()`, an idle HALT "
+    "cycle counts as one step) and CoreRuntime::step(n) by its (`for _ in 0..instructions`); the statement quantifies "
+    "over the ways the cycle counter advances, not over how the host chops the instruction stream into calls, so "
+    "after a call of n instructions the timers (next targets of active timers, ISR bits 0/1, firing cycles reported by "
+    "the real TimerScheduler.advance) must be where n single steps of the same implementation leave them; host "
+    "actions happen between calls only (a step that carries one starts a new call); only the first differing call per "
+    "run is reported; nothing is judged after the single-stepped reference left the generated program or when only "
+    "non-timer state (cycle counter, PC, halted, in-interrupt, delivery counter) differs (label "
+    "machine:bulk:non-timer-state-differs(not judged), expected 0); breakpoints, tracing and run(None) are not "
+    "exercised",
     "machine reset at a generated step: PCE500Emulator.reset() / CoreRuntime.power_on_reset() + "
     "timer.reset_full(cycle_count) (what the PyO3 wrapper's power_on_reset does), then S, IMR, ISR are re-written "
     "by the harness as at start; verdict: next target - cycle counter == period, and the grid is re-anchored at "
@@ -1324,6 +1342,20 @@ def _machine_labels(case: Dict[str, Any], facts: Dict[str, Any]) -> List[str]:
                     ("reset_after_run", "machine:reset-after-N>0-cycles"), ("derailed", "machine:derailed")):
         if facts.get(k):
             lab.append(name)
+    if case.get("chunkings"):
+        lab.append("machine:bulk-entry-points")
+    for k, name in (("bulk_calls", "machine:bulk:call-with-n>1"),
+                    ("bulk_delivery_mid_call", "machine:bulk:interrupt-delivered-mid-call"),
+                    ("bulk_handler_fire_window", "machine:bulk:boundary-inside-handler-before-call-returns"),
+                    ("bulk_fire_mid_call", "machine:bulk:timer-fired-mid-call"),
+                    ("bulk_halt_idle", "machine:bulk:idle-halt-cycles-inside-call"),
+                    ("bulk_fire_in_halt_idle", "machine:bulk:timer-fired-in-idle-halt-cycle-inside-call"),
+                    ("bulk_offgrid_pair", "machine:bulk:one-timer-fired-alone-in-idle-halt-cycle"),
+                    ("bulk_other_mismatch", "machine:bulk:non-timer-state-differs(not judged)")):
+        if facts.get(k):
+            lab.append(name)
+    if facts.get("bulk_max", 0) >= 13:
+        lab.append("machine:bulk:call-with-n>=13")
     if facts.get("halt_idle"):
         lab.append("machine:idle-halt-cycles")
     if facts.get("wait_multi"):
@@ -1347,11 +1379,14 @@ def _machine_shard(task: Tuple[int, str, List[Tuple[Any, ...]]]) -> Report:
                 rep.violate(v)
             nt = facts.get("fires", 0) >= 2
             key = jhash(["m", case["mti"], case["sti"], case["enabled"], case["prog"], case["steps"],
-                         case.get("handler"), case.get("imr"), case.get("kbirq", True)], 16) if nt else None
+                         case.get("handler"), case.get("imr"), case.get("kbirq", True),
+                         case.get("chunkings")], 16) if nt else None
             n += 1
             sample = case if (n % 41 == 3 and len(case["steps"]) <= 40) else None
             rep.case(key, _machine_labels(case, facts), sample)
             rep.extra["machine_steps"] = rep.extra.get("machine_steps", 0) + facts.get("steps", 0)
+            rep.extra["machine_bulk_calls_compared"] = (rep.extra.get("machine_bulk_calls_compared", 0)
+                                                        + facts.get("bulk_calls_compared", 0))
     return rep
 
 
@@ -1366,7 +1401,7 @@ def run(ctx: Ctx) -> Report:
     configs = plan(ctx.seed, ctx.tier)
     mconfigs = M.plan(ctx.seed, ctx.tier)
     nshards = 16 if ctx.quick else 64
-    nm = 12 if ctx.quick else 48
+    nm = 16 if ctx.quick else 64
     tasks: List[Tuple[str, Any]] = []
     for i in range(max(nshards, nm)):     # interleave so both layers spread over the pool
         if i < nshards:
@@ -1377,8 +1412,11 @@ def run(ctx: Ctx) -> Report:
     rep.rule = RULE
     rep.assumptions = list(ASSUMPTIONS)
     rep.extra["small_period_pairs_covered"] = len({(c[0], c[1]) for c in configs if c[0] <= 12 and c[1] <= 12})
-    plain = [c for c in mconfigs if c[0] != "irq"]
+    plain = [c for c in mconfigs if not isinstance(c[0], str)]
     irqc = [c[1:] for c in mconfigs if c[0] == "irq"]
+    runc = [c[1:] for c in mconfigs if c[0] == "run"]
+    rep.extra["small_period_pairs_covered_machine_bulk"] = len({(c[0], c[1]) for c in runc
+                                                                if c[0] <= 12 and c[1] <= 12})
     rep.extra["small_period_pairs_covered_machine"] = len({(c[0], c[1]) for c in plain
                                                            if c[0] <= 12 and c[1] <= 12})
     rep.extra["small_period_pairs_covered_machine_irq"] = len({(c[0], c[1]) for c in irqc
